@@ -10,15 +10,16 @@ import (
 )
 
 type deviceStatements struct {
-	putStatement         *sql.Stmt
-	devAddrStatement     *sql.Stmt
-	euiStatement         *sql.Stmt
-	nonceStatement       *sql.Stmt
-	appEUIStatement      *sql.Stmt
-	getNonceStatement    *sql.Stmt
-	updateStateStatement *sql.Stmt
-	deleteStatement      *sql.Stmt
-	updateStatement      *sql.Stmt
+	putStatement           *sql.Stmt
+	devAddrStatement       *sql.Stmt
+	euiStatement           *sql.Stmt
+	nonceStatement         *sql.Stmt
+	appEUIStatement        *sql.Stmt
+	getNonceStatement      *sql.Stmt
+	updateStateStatement   *sql.Stmt
+	advanceFCntUpStatement *sql.Stmt
+	deleteStatement        *sql.Stmt
+	updateStatement        *sql.Stmt
 }
 
 func (d *deviceStatements) Close() {
@@ -29,6 +30,7 @@ func (d *deviceStatements) Close() {
 	d.appEUIStatement.Close()
 	d.getNonceStatement.Close()
 	d.updateStateStatement.Close()
+	d.advanceFCntUpStatement.Close()
 	d.deleteStatement.Close()
 	d.updateStatement.Close()
 }
@@ -149,6 +151,11 @@ func (d *deviceStatements) prepare(db *sql.DB) error {
 	updateState := `UPDATE lora_devices SET fcnt_dn = $1, fcnt_up = $2, key_warning = $3 WHERE eui = $4`
 	if d.updateStateStatement, err = db.Prepare(updateState); err != nil {
 		return fmt.Errorf("unable to prepare update state statement: %v", err)
+	}
+
+	advanceFCntUp := `UPDATE lora_devices SET fcnt_up = $1, key_warning = $2 WHERE eui = $3 AND fcnt_up <= $4`
+	if d.advanceFCntUpStatement, err = db.Prepare(advanceFCntUp); err != nil {
+		return fmt.Errorf("unable to prepare advance fcnt_up statement: %v", err)
 	}
 
 	delete := `DELETE FROM lora_devices WHERE eui = $1`
@@ -349,6 +356,17 @@ func (s *Storage) UpdateDeviceState(device model.Device) error {
 	}
 	return s.doSQLExec(s.devStmt.updateStateStatement, func(st *sql.Stmt) (sql.Result, error) {
 		return st.Exec(device.FCntDn, device.FCntUp, device.KeyWarning, device.DeviceEUI.ToInt64())
+	})
+}
+
+// AdvanceFCntUp moves the uplink frame counter of the device past fCnt, ie
+// sets it to fCnt+1 (and stores the key warning flag), but only if the stored
+// counter isn't already past fCnt. The check and the update is a single
+// statement so that two copies of a frame can't both move the counter. Returns
+// ErrNotFound if the counter was not moved.
+func (s *Storage) AdvanceFCntUp(eui protocol.EUI, fCnt uint16, keyWarning bool) error {
+	return s.doSQLExec(s.devStmt.advanceFCntUpStatement, func(st *sql.Stmt) (sql.Result, error) {
+		return st.Exec(fCnt+1, keyWarning, eui.ToInt64(), fCnt)
 	})
 }
 
